@@ -62,6 +62,9 @@ type epTx struct {
 	End      string `json:"end"`
 	Stage    string `json:"dwell_stage"`
 	DwellUS  int    `json:"dwell_us"`
+	// Form (spelling scenarios, spelling_test.go): named spelling of the sender domain (source scenario)
+	// or of the recipient domain (destination scenario); "" = Spelling applies.
+	Form string `json:"form,omitempty"`
 }
 
 type epClient struct {
@@ -78,6 +81,13 @@ type epScenario struct {
 	Cfg     limitsCfg  `json:"cfg"`
 	Text    string     `json:"limits_text"`
 	Clients []epClient `json:"clients"`
+	// Spell (spelling_test.go): "" | source | destination - every client uses another spelling of ONE
+	// domain, all of them at the same time; the admitted ones are held by a barrier.
+	Spell       string    `json:"spelling_scenario,omitempty"`
+	IDN         bool      `json:"idn_domain,omitempty"` // the domain class is an internationalised domain
+	RemoteCfg   limitsCfg `json:"remote_cfg,omitempty"` // destination scenario: limits of the remote target behind the endpoint
+	RemoteText  string    `json:"remote_limits_text,omitempty"`
+	NexthopUTF8 bool      `json:"nexthop_smtputf8,omitempty"` // destination scenario: the next hop advertises SMTPUTF8
 }
 
 func epIP(i int) net.IP { return net.IPv4(127, 0, 0, byte(2+i)) }
@@ -173,6 +183,8 @@ type epHarness struct {
 	holding  atomic.Int32
 	probeSeq atomic.Int64
 	entered  atomic.Int64
+	opened   atomic.Bool // spelling scenario: the barrier has been opened
+	rm       *spRemote   // destination spelling scenario: remote target + next hop behind the endpoint
 }
 
 var epSeq atomic.Int64
@@ -256,7 +268,11 @@ func (h *epHarness) txOf(from string) (ci, ti int, tx *epTx) {
 func (h *epHarness) keysOf(ci int, tx *epTx) []scopeKey {
 	dom := ""
 	if tx.Domain >= 0 {
+		// the name of the sender-domain CLASS (all spellings of it count on this key)
 		dom = epDomain(tx.Domain)
+		if h.sc.Spell == scSrc {
+			dom = spellCanonical(tx.Domain, h.sc.IDN)
+		}
 	}
 	return []scopeKey{{scAll, ""}, {scIP, epIP(h.sc.Clients[ci].IP).String()}, {scSrc, dom}}
 }
@@ -334,7 +350,7 @@ func newEpHarness(sc epScenario) (*epHarness, error) {
 			h.in[p.MsgID] = true
 			h.mu.Unlock()
 			h.mon.Enter(h.keysOf(ci, tx)...)
-			if h.sc.Timeout && ci < h.holders() {
+			if h.sc.Timeout && ci < h.holders() || h.sc.Spell == "source" {
 				h.holding.Add(1)
 				<-h.hold
 			}
@@ -372,9 +388,20 @@ func newEpHarness(sc epScenario) (*epHarness, error) {
 	}
 	mx.RegisterInstance(h.tgt)
 	registerCheck(h.chk)
+	deliverTo := h.tgt.InstName
+	if sc.Spell == "destination" {
+		// the real remote target (with its own limits) behind the endpoint, one scripted next hop
+		name, err := h.attachRemote(id)
+		if err != nil {
+			return nil, err
+		}
+		deliverTo = name
+	}
 
 	limitsDirective := ""
-	if sc.Inline {
+	if sc.Text == "" {
+		// no limits on the endpoint itself (destination spelling scenario)
+	} else if sc.Inline {
 		limitsDirective = "limits {\n" + sc.Text + "}\n"
 	} else {
 		g, err := buildGroup(sc.Text)
@@ -390,7 +417,7 @@ func newEpHarness(sc epScenario) (*epHarness, error) {
 		deferTxt = "yes"
 	}
 	text := "hostname mx.example.com\ntls off\nbuffer ram\ndefer_sender_reject " + deferTxt + "\n" + limitsDirective +
-		"check {\nc11_script " + h.chk.InstName + "\n}\ndeliver_to &" + h.tgt.InstName + "\n"
+		"check {\nc11_script " + h.chk.InstName + "\n}\ndeliver_to &" + deliverTo + "\n"
 
 	var lastErr error
 	for try := 0; try < 20; try++ {
@@ -539,7 +566,8 @@ func (h *epHarness) runClient(ci int, st *epStats, onReply func(ti int, stage st
 	}
 	for ti, tx := range cl.Txs {
 		st.tx.Add(1)
-		code, _ := conn.cmd("MAIL FROM:<%s>", epSender(ci, ti, tx))
+		from, rcpt, utf8 := h.addrs(ci, ti, tx)
+		code, _ := conn.cmd("MAIL FROM:<%s>%s", from, utf8)
 		onReply(ti, "mail", code)
 		if code == 0 {
 			st.lost.Add(1)
@@ -562,7 +590,7 @@ func (h *epHarness) runClient(ci int, st *epStats, onReply func(ti int, stage st
 			}
 			continue
 		}
-		code, txt := conn.cmd("RCPT TO:<r@rcpt.example>")
+		code, txt := conn.cmd("RCPT TO:<%s>", rcpt)
 		onReply(ti, "rcpt", code)
 		if code == 0 {
 			st.lost.Add(1)
@@ -594,7 +622,7 @@ func (h *epHarness) runClient(ci int, st *epStats, onReply func(ti int, stage st
 		case "nested-mail":
 			// a second MAIL inside the open transaction, then RSET
 			st.nested.Add(1)
-			if code, _ := conn.cmd("MAIL FROM:<%s>", epSender(ci, ti, tx)); code == 0 {
+			if code, _ := conn.cmd("MAIL FROM:<%s>%s", from, utf8); code == 0 {
 				st.lost.Add(1)
 				return
 			}
@@ -676,6 +704,9 @@ func (h *epHarness) close() {
 	select {
 	case <-done:
 	case <-time.After(20 * time.Second):
+	}
+	if h.rm != nil {
+		h.rm.close()
 	}
 }
 
@@ -774,14 +805,33 @@ func runEndpointCases(t *testing.T, r *rep.Reporter, env instrEnv) {
 	for i := 0; i < n; i++ {
 		idx := baseEndpoint + i
 		r.Run(idx, fmt.Sprintf("endpoint-%d", i), func(c *rep.Case) {
+			p := prng.New(r.Seed(), uint64(idx), "c11/endpoint")
+			sc := genEndpointScenario(p, i < nTimeout)
+			runEndpointScenario(t, r, c, idx, i, sc, i < 2 || i == nTimeout)
+		})
+	}
+	// one domain in all its spellings at the same time (spelling_test.go): own index range and PRNG stream
+	n = r.N(spellQuick, spellThorough)
+	for i := 0; i < n; i++ {
+		idx := baseSpelling + i
+		r.Run(idx, fmt.Sprintf("endpoint-spelling-%d", i), func(c *rep.Case) {
+			p := prng.New(r.Seed(), uint64(idx), "c11/endpoint-spelling")
+			sc := genSpellingScenario(p, i)
+			runEndpointScenario(t, r, c, idx, i, sc, i < 2)
+		})
+	}
+}
+
+// runEndpointScenario runs one generated scenario against an endpoint built from configuration text.
+func runEndpointScenario(t *testing.T, r *rep.Reporter, c *rep.Case, idx, i int, sc epScenario, sample bool) {
+	{
+		{
 			caseStart := time.Now()
 			defer func() {
 				if d := time.Since(caseStart); d > 20*time.Second {
-					r.Distinct("endpoint_cases_over_20s", fmt.Sprintf("endpoint-%d (%ds)", i, int(d.Seconds())))
+					r.Distinct("endpoint_cases_over_20s", fmt.Sprintf("%s (%ds)", c.ID, int(d.Seconds())))
 				}
 			}()
-			p := prng.New(r.Seed(), uint64(idx), "c11/endpoint")
-			sc := genEndpointScenario(p, i < nTimeout)
 			h, err := newEpHarness(sc)
 			if errors.Is(err, errNoPort) {
 				c.Inconclusive(err.Error())
@@ -797,7 +847,10 @@ func runEndpointCases(t *testing.T, r *rep.Reporter, env instrEnv) {
 			var st epStats
 			var wg sync.WaitGroup
 			var surplus451, surplusAdmitted atomic.Int64
-			if sc.Timeout {
+			judge := true
+			if sc.Spell != "" {
+				judge = h.runSpelling(c, r, &st, &wg)
+			} else if sc.Timeout {
 				nh := h.holders()
 				// holders first: all of them must get inside Start
 				for ci := 0; ci < nh; ci++ {
@@ -868,15 +921,34 @@ func runEndpointCases(t *testing.T, r *rep.Reporter, env instrEnv) {
 			}
 			quiet := h.waitSessionsClosed(60 * time.Second)
 			h.reportPanics(c)
-			h.mon.Report(c, "endpoint", sc)
+			layer := "endpoint"
+			if sc.Spell != "" {
+				// cause class of the witness: spellings of one domain used at the same time
+				layer = "endpoint/cause=domain-spelling"
+			}
+			if judge {
+				h.mon.Report(c, layer, sc)
+				if h.rm != nil {
+					h.rm.mon.Report(c, "endpoint-remote/cause=domain-spelling", sc)
+				}
+			}
 			switch {
 			case !quiet:
 				c.Inconclusive("server sessions did not end within the watchdog")
 			case h.panicked():
+			case h.rm != nil:
+				// destination spelling scenario: every delivery has ended, probe the remote target's group
+				var cr crashes
+				pb := &prober{c: c, r: r, g: h.rm.group, cfg: sc.RemoteCfg, layer: "endpoint-remote", wit: sc, cr: &cr}
+				pb.probeAll(epIP(0), "sender.example", spellCanonical(0, sc.IDN))
+				cr.Report(c, "endpoint-remote", sc)
 			case h.group != nil:
 				var cr crashes
 				pb := &prober{c: c, r: r, g: h.group, cfg: sc.Cfg, layer: "endpoint", wit: sc, cr: &cr}
 				usedDom := epDomain(0)
+				if sc.Spell == scSrc {
+					usedDom = spellCanonical(0, sc.IDN)
+				}
 				pb.probeAll(epIP(0), usedDom, "")
 				cr.Report(c, "endpoint", sc)
 			default:
@@ -922,12 +994,19 @@ func runEndpointCases(t *testing.T, r *rep.Reporter, env instrEnv) {
 					r.Distinct("endpoint_transaction_endings", tx.End)
 				}
 			}
-			if i < 2 || i == nTimeout {
+			if sample {
 				r.Sample(map[string]any{"layer": "endpoint", "proto": sc.Proto, "limits": sc.Text, "inline": sc.Inline, "defer": sc.Defer, "timeout_scenario": sc.Timeout, "clients": len(sc.Clients)})
 			}
-			shape := fmt.Sprintf("endpoint %s defer=%v inline=%v timeout=%v/%s cfg=%s clients=%d ends=%d sat=%v hl=%v", sc.Proto, sc.Defer, sc.Inline, sc.Timeout, sc.Scope, sc.Cfg.Shape(), len(sc.Clients), len(ends), sat > 0, st.highLoad.Load() > 0)
+			if h.rm != nil {
+				sat, _ = h.rm.mon.Saturated()
+				r.Count("scope_keys_saturated", int64(sat))
+			}
+			shape := fmt.Sprintf("endpoint %s defer=%v inline=%v timeout=%v/%s cfg=%s clients=%d ends=%d sat=%v hl=%v", sc.Proto, sc.Defer, sc.Inline, sc.Timeout, sc.Scope, sc.Cfg.Shape()+sc.RemoteCfg.Shape(), len(sc.Clients), len(ends), sat > 0, st.highLoad.Load() > 0)
+			if sc.Spell != "" {
+				shape = fmt.Sprintf("spelling=%s idn=%v utf8hop=%v ", sc.Spell, sc.IDN, sc.NexthopUTF8) + shape
+			}
 			c.Done(shape, sat > 0 || st.highLoad.Load() > 0)
-		})
+		}
 	}
 }
 
